@@ -591,6 +591,9 @@ func Mul(a, b *Term) *Term {
 			return Mul(IntBig(new(big.Int).Mul(a.V, b.Args[0].V)), b.Args[1])
 		}
 	}
+	if a.Op != "int" && b.Op != "int" && a.id > b.id {
+		a, b = b, a // canonical order of the factors of a nonlinear product
+	}
 	return P.intern(&Term{Op: "*", Args: []*Term{a, b}, S: IntS})
 }
 
